@@ -533,6 +533,7 @@ func Main(t *testing.T, spec Spec) {
 			v := runOnce(c, spec.Run)
 			if target == nil {
 				st.absorb(c)
+				detLog(c, v)
 			}
 			if v == nil {
 				return
@@ -611,4 +612,37 @@ func FailHard(c *Ctx, class, signature, msg string) {
 	}
 	fmt.Printf("VIOLATION-CANDIDATE (hard) class=%s signature=%s: %s\n", class, signature, msg)
 	os.Exit(1)
+}
+
+// detLog appends one canonical line per run (determinism self-test): everything observable about
+// the run except wall-clock time.
+func detLog(c *Ctx, v *Violation) {
+	path := os.Getenv("VERIF_DETLOG")
+	if path == "" {
+		return
+	}
+	var ks []string
+	for k, n := range c.counters {
+		ks = append(ks, fmt.Sprintf("%s=%d", k, n))
+	}
+	for k, n := range c.probes {
+		ks = append(ks, fmt.Sprintf("p:%s=%d", k, n))
+	}
+	sort.Strings(ks)
+	var ss []uint64
+	for h := range c.states {
+		ss = append(ss, h)
+	}
+	sort.Slice(ss, func(i, j int) bool { return ss[i] < ss[j] })
+	vio := "-"
+	if v != nil {
+		vio = v.Class + "|" + v.Signature
+	}
+	f, err := os.OpenFile(path, os.O_APPEND|os.O_CREATE|os.O_WRONLY, 0o644)
+	if err != nil {
+		return
+	}
+	fmt.Fprintf(f, "seed=%d trace=%016x ops=%d simtime=%d nontrivial=%v obs=%016x states=%016x violation=%s\n", c.Trace.RapidSeed, c.Trace.Hash(), len(c.Trace.Ops), c.simTime, c.nontrivial,
+		HashStr(ks...), HashStr(fmt.Sprint(ss)), vio)
+	f.Close()
 }
